@@ -251,6 +251,23 @@ pub fn check(_ctx: &Ctx, input: &Input) -> CaseResult {
         let scratch = if read_mask & 4 != 0 { Some(m.locals.add(ValType::I32)) } else { None };
         let model2 = model.clone();
         let pt = param_types.clone();
+        // a quarter of the cases re-home the import first (delete it, add it
+        // again under the same names): it then sits at the end of the list
+        if read_mask & 24 == 24 {
+            let rehomed = guard("re-home import", || {
+                let old = m.imports.get_imported_func(fid).map(|i| (i.id(), i.module.clone(), i.name.clone()));
+                if let Some((id, module, name)) = old {
+                    m.imports.delete(id);
+                    m.imports.add(&module, &name, fid);
+                    true
+                } else {
+                    false
+                }
+            })?;
+            if rehomed {
+                out.label("import-re-homed-before-replacement");
+            }
+        }
         let r = guard("replace_imported_func", || {
             m.replace_imported_func(fid, |(body, args)| build_body(body, args, &model2, &pt, read_mask, scratch))
         })?;
